@@ -469,6 +469,34 @@ def check_dynamic_dead_end(repo, scratch):
 CHECKS = {"dynamic_dead_end": check_dynamic_dead_end, "lookahead": check_lookahead, "atom_ord": check_atom_ord, "atom_guards": check_atom_guards, "cmp_instrs": check_cmp_instrs, "switch_routes": check_switch_routes, "arith_tables": check_arith_tables}
 
 
+def watch_hashes(repo, items):
+    """(key -> sha256 of the significant-token text) for functions that a property's mechanisms name but that are outside the
+    verifier's reach. items: (file, fn name, optional impl-header regex, optional ordinal among same-named fns)."""
+    import hashlib
+    from rustlex import find_fns, find_blocks
+    out = {}
+    for it in items:
+        path, name = it[0], it[1]
+        impl_rx = it[2] if len(it) > 2 else None
+        key = "%s::%s%s" % (path, (impl_rx + "::") if impl_rx else "", name)
+        p = os.path.join(repo, path)
+        if not os.path.exists(p):
+            out[key] = None; continue
+        toks = lex(open(p, encoding="utf-8").read())
+        lo, hi = 0, len(toks)
+        if impl_rx:
+            bl = find_blocks(toks, "impl", impl_rx)
+            if len(bl) != 1:
+                out[key] = None; continue
+            lo, hi = bl[0].body_open, bl[0].body_close
+        its = find_fns(toks, name, lo, hi)
+        if len(its) != 1:
+            out[key] = None; continue
+        blk = toks[its[0].start:its[0].body_close + 1]
+        out[key] = hashlib.sha256(" ".join(t.text for t in _sig(blk)).encode()).hexdigest()[:20]
+    return out
+
+
 def run(names, repo, scratch=None):
     scratch = scratch or os.path.join(ROOT, ".scratch", "structural")
     out = {"obligations": [], "failed": [], "undecided": [], "assumptions": [], "functions": [], "cmds": []}
